@@ -257,6 +257,32 @@ def rule_f(R, ctx, rid="C12.f"):
                  "redone id %s is re-read from the item found by the previous round" % sshow(t, 4) if lc else
                  "the lookup of %s is a single hop: after two re-creations (undo, redo, undo) the caller is handed a stale "
                  "incarnation" % sshow(t, 5), cs.loc())
+            # an in-block offset carried along the chain must be measured against the id looked up in *this* round
+            if lc:
+                for c2 in fn.calls():
+                    if re.search(r"::(checked_sub|wrapping_sub|saturating_sub)$", c2.name) and len(c2.args) == 2:
+                        a, b = simp_deep(v.arg(c2, 0, 10)), v.arg(c2, 1, 10)
+                    else:
+                        continue
+                    if term_has_call(b, "yrs::block_store::BlockStore::get_item_clean_start") and field_path(simp_deep(b))[-1:] == ["clock"] \
+                            and a[0] == "field" and a[1].endswith("ID.clock") and simp_deep(a[2])[0] == "param":
+                        arg = simp_deep(v.arg(cs, 1, 10))
+                        if not (arg[0] == "param" and arg[1] == simp_deep(a[2])[1]):
+                            R.ob(rid, fn, site + ":offset-base", False,
+                                 "an offset is computed as <parameter %s>.clock - <found block>.clock inside the chain walk: from the "
+                                 "second hop on the parameter is no longer the id that was looked up, so the offset is wrong (or the "
+                                 "subtraction fails and the walk gives up)" % fn.local_name(simp_deep(a[2])[1]), c2.loc())
+                for i2, j2, st2 in fn.stmts():
+                    rv2 = st2["rv"]
+                    if rv2.get("bin") in ("Sub", "SubWithOverflow"):
+                        a = simp_deep(v.terms.operand(rv2["a"], 10))
+                        b = v.terms.operand(rv2["b"], 10)
+                        if term_has_call(b, "yrs::block_store::BlockStore::get_item_clean_start") and a[0] == "field" and a[1].endswith("ID.clock") \
+                                and simp_deep(a[2])[0] == "param":
+                            arg = simp_deep(v.arg(cs, 1, 10))
+                            if not (arg[0] == "param" and arg[1] == simp_deep(a[2])[1]):
+                                R.ob(rid, fn, site + ":offset-base", False,
+                                     "an offset is computed as <parameter>.clock - <found block>.clock inside the chain walk", "%s:%s" % (fn.file, st2["line"]))
     R.floor(rid, "lookups of a redone id", total, 6)
     R.floor(rid, "loop-carried redone lookups", carried, 5)
 
